@@ -61,6 +61,8 @@ class SymCtx:
         self.solver.set('timeout', int(opts.get('branch_timeout_ms', 10000)))
         self.side = []  # nonlinear contract hypotheses, kept out of the branch context
         self.side_polys = []  # canonical polynomials known to be == 0 (from contracts)
+        self.side_R = []  # the same hypotheses as R objects (symx.ideal: combinations of hypotheses)
+        self.side_hints = []  # z3 equalities proposed by stubs: a simple solution of their contract (model search only)
         self.nq = 0
         self.tq = 0.0
         self.obligations = 0
@@ -177,6 +179,7 @@ class SymCtx:
             return
         self.side_polys.append(_key_of(r))
         self.side_polys.append(_key_of(-r))
+        self.side_R.append(r)
         re, im = r.z3()
         self.side.append(z3.And(re == 0, im == 0))
 
@@ -219,6 +222,37 @@ class SymCtx:
     def flag(self, name):
         return self.choice(name, 2) == 1
 
+    def free_choice(self, name, n):
+        """like ``choice`` for a FRESH selector (first use of `name` on this path): the selector is independent of
+        every other input, so each value in range(n) is feasible by construction and the values are enumerated by
+        bisection decisions without feasibility queries; the path condition records ``name == value`` as usual."""
+        if n <= 1:
+            return 0
+        if name in self._declared:
+            raise RuntimeError(f"free_choice: selector {name!r} was used before on this path")
+        self._declared.add(name)
+        v = z3.Int(name)
+        self.int_inputs[name] = v
+        lo, hi = 0, n - 1
+        while lo < hi:
+            mid = (lo + hi) // 2
+            if self.pos < len(self.decisions):
+                d = self.decisions[self.pos][0]
+            else:
+                if len(self.decisions) >= self.opts.get('max_depth', 100000):
+                    raise PathBudget("depth")
+                d = True
+                self.decisions.append([d, False])
+            self.pos += 1
+            if d:
+                hi = mid
+            else:
+                lo = mid + 1
+        c = v == lo
+        self.solver.add(c)
+        self.pc.append(c)
+        return lo
+
     def array(self, name, shape, cplx=False, pos=False):
         a = np.empty(shape, dtype=object)
         for idx in np.ndindex(*a.shape):
@@ -232,22 +266,26 @@ class SymCtx:
             a[idx] = self.int(name + '_' + '_'.join(map(str, idx)), lo, hi)
         return a
 
-    def fresh(self, base, cplx=False, pos=False):
+    def fresh(self, base, cplx=False, pos=False, nonneg=False):
         """fresh symbol (stub output), deterministic name per path"""
         S = self.S
         self._fresh += 1
         nm = f"{base}#{self._fresh}"
         if cplx:
             return S.R.var(nm + '.re', 'f') + S.R.var(nm + '.im', 'f') * 1j
-        r = S.R.var(nm, 'p' if pos else 'f')
+        r = S.R.var(nm, 'p' if pos else ('n' if nonneg else 'f'))
+        i = S.REG.by_name[nm]
+        S.REG.kind[i] = 'p' if pos else ('n' if nonneg else 'f')
         if pos:
-            self.solver.add(S.REG.z3v[S.REG.by_name[nm]] > 0)
+            self.solver.add(S.REG.z3v[i] > 0)
+        elif nonneg:
+            self.solver.add(S.REG.z3v[i] >= 0)
         return r
 
-    def fresh_array(self, base, shape, cplx=False, pos=False):
+    def fresh_array(self, base, shape, cplx=False, pos=False, nonneg=False):
         a = np.empty(shape, dtype=object)
         for idx in np.ndindex(*a.shape):
-            a[idx] = self.fresh(base + '_' + '_'.join(map(str, idx)), cplx, pos)
+            a[idx] = self.fresh(base + '_' + '_'.join(map(str, idx)), cplx, pos, nonneg)
         return a
 
     # ---------------------------------------------------------------- scalar support
@@ -443,6 +481,17 @@ class SymCtx:
         if kn is True:
             self.discharged += 1  # literally a conjunct of the path condition
             return True
+        if self.side:
+            # first without the (non-linear) contract hypotheses: sound, and integer / sign obligations rarely need them
+            self.solver.push()
+            try:
+                self.solver.add(z3.Not(t))
+                r0 = self._check(timeout_ms=self.opts.get('prove_timeout_ms', 10000))
+            finally:
+                self.solver.pop()
+            if r0 == z3.unsat:
+                self.discharged += 1
+                return True
         if not self.side:
             self.solver.push()
             try:
@@ -513,6 +562,8 @@ class SymCtx:
             d = x - y
             if d.d is not None:
                 d = S.R(d.n)
+            if d.n and S.REG.sqrt_def:
+                d = S.R(S._clear_neg_sqrt(d.n))
             if not d.n:
                 zero += 1
                 continue
@@ -535,6 +586,10 @@ class SymCtx:
             if d is not None and self.side_polys and _key_of(d) in self.side_polys:
                 continue
             rest.append((idx, d, f))
+        if rest and self.side_R and self.opts.get('ideal', True):
+            # certified combinations  sum c * monomial * hypothesis  of the contract hypotheses (symx.ideal)
+            from . import ideal
+            rest = [(idx, d, f) for idx, d, f in rest if d is None or not ideal.follows(self, d)]
         if not rest:
             self.discharged += 1
             return True
@@ -567,6 +622,15 @@ class SymCtx:
                         val = -val
                     asm.append(S.REG.z3v[i] == z3.RealVal(f"{val.numerator}/{val.denominator}"))
                 r = self._check(*asm, solver=s, timeout_ms=3000)
+                if r == z3.sat:
+                    self._fail(label, 'violation', self._model_dict(s.model()),
+                               f'{len(rest)} entries differ, e.g. {rest[0][0]}')
+                    return False
+        if self.side_hints:
+            # model search only: try the simple solution of the stub contracts proposed by the stubs (e.g. U = V = 1)
+            vals = self.__dict__.get('side_hint_values') or []
+            for hs in ((self.side_hints + vals, self.side_hints) if vals else (self.side_hints, )):
+                r = self._check(*hs, solver=s, timeout_ms=self.opts.get('hint_timeout_ms', 4000))
                 if r == z3.sat:
                     self._fail(label, 'violation', self._model_dict(s.model()),
                                f'{len(rest)} entries differ, e.g. {rest[0][0]}')
